@@ -102,8 +102,26 @@ Definition delete_item (p : Z) (v : runs) (m : list Z) : option runs :=
     end
   end.
 
+
+(* Row.traverse(start, end) / Table.traverse_columns(start, end): the loop over the map from the run that holds start;
+   m = map[start_map:], v = items[start_map:], before = start - 1 initially, x = next position to yield, en = end *)
+Fixpoint trav (x en before : Z) (m : list Z) (v : runs) : list A :=
+  match m, v with
+  | juska :: m', (_, c) :: v' =>
+      let rep := (juska - before)%Z in
+      let k := Z.to_nat (Z.min rep (en - x + 1)) in
+      repeat c k ++ trav (x + Z.of_nat k)%Z en juska m' v'
+  | _, _ => []
+  end.
+Definition traverse_range (start en : Z) (v : runs) : list A :=
+  match find_idx (cmap v) start with
+  | None => []
+  | Some i => trav start en (start - 1)%Z (skipn i (cmap v)) (skipn i v)
+  end.
+
 End Vault.
 Arguments expand {A}. Arguments width {A}. Arguments wf {A}. Arguments wfb {A}. Arguments cmap_from {A}. Arguments cmap {A}.
+Arguments trav {A}. Arguments traverse_range {A}.
 Arguments insert_item {A}. Arguments drop_pos {A}. Arguments set_item {A}. Arguments delete_item {A}.
 
 (* ---- the map primitives of the code ---- *)
